@@ -10,6 +10,13 @@ from spec.rt import bits, bit
 from . import machine as MC
 
 
+def unscripted(address, size):
+    """memory content where the model scripts no value (an access of a branch the merged path's log does not list): a byte
+    pattern by address, so that the real run and the specification read the same memory whatever access sizes they use and
+    swapped or misplaced data is visible"""
+    return int.from_bytes(bytes((((address + k) & 0xFFFFFFFF) * 37 + 11) & 0xFF for k in range(size)), 'little')
+
+
 class Script:
     def __init__(self, cpu, inputs):
         self.cpu = cpu
@@ -72,7 +79,7 @@ def install_stubs(cpu, inputs, iset):
             n, ent = sc.next(what, address, size)
             if ent is not None and ent[1].endswith('fault'):
                 sc.abort(n)
-            return ent[4] if ent is not None and ent[4] is not None else 0
+            return ent[4] if ent is not None and ent[4] is not None else unscripted(address, size)
         return f
 
     def wr(what):
@@ -380,8 +387,8 @@ def replay(iset, memarch, nregions, inputs, ob):
                     for j, e in enumerate(sc.accesses):
                         if e is not None and j not in self.used and e[1] == 'R' and e[2] == addr and e[3] == size:
                             self.used.add(j)
-                            return e[4] or 0
-                    return 0
+                            return e[4] if e[4] is not None else unscripted(addr, size)
+                    return unscripted(addr, size)
 
                 def write(self, kind, priv, addr, size, value):
                     self.writes.append((addr, size, value, kind, bool(priv)))
